@@ -8,6 +8,7 @@ import (
 	"os"
 	"path/filepath"
 	"sort"
+	"time"
 
 	. "verifharness/common"
 )
@@ -17,7 +18,7 @@ import (
 // SIGKILL ("kill"); afterwards the listed file surgery is applied to the stopped directory. After the last session
 // the server is started once more. Every start is followed by an observation (or "refused to start").
 type Step struct {
-	Op   string  `json:"op"` // write | sync | pipe | delpipe
+	Op   string  `json:"op"` // write | sync | pipe | delpipe | drop (the partition is truncated away completely) | fwdpipe (the pipe "pf" from partition 0 to the last partition) | round (flush; write Ts to partition 0, which stays buffered; wait until that pipe has forwarded what is flushed; flush the destination)
 	Part int     `json:"part,omitempty"`
 	Ts   []int64 `json:"ts,omitempty"`
 	Name string  `json:"name,omitempty"`
@@ -34,6 +35,9 @@ type Session struct {
 	End     string    `json:"end"`             // stop | kill | crash-stop (the process dies inside the first saver of the shutdown sequence)
 	EndK    int       `json:"end_k,omitempty"` // crash-stop: the file size limit is EndK per mille of pipes.dat (what savePipes is about to write)
 	Surgery []Surgery `json:"surgery,omitempty"`
+	// Blind: nothing is asked of the server between the start of this session and its first step (no read, no RANGE
+	// probe: a query lets the time index learn the chunks its snapshot does not know; here a write finds them unknown)
+	Blind bool `json:"blind,omitempty"`
 }
 
 type Scenario struct {
@@ -44,6 +48,7 @@ type Scenario struct {
 }
 
 type Obs struct {
+	Blind   bool // started, not observed
 	Started bool
 	Err     string
 	Parts   []PartView // by partition number
@@ -52,12 +57,20 @@ type Obs struct {
 	Ranges  [][]int64
 }
 
-func partTags(i int) string { return fmt.Sprintf("app=c07,p=%d", i) }
+const fwdPipe = "pf"
+
+// tags of partition i; in a "fwd" scenario the last partition is the destination of the pipe "pf"
+func (sc *Scenario) tags(i int) string {
+	if sc.Kind == "fwd" && i == sc.NParts-1 {
+		return "logrange.pipe=" + fwdPipe
+	}
+	return fmt.Sprintf("app=c07,p=%d", i)
+}
 
 func (sc *Scenario) know() []string {
 	k := make([]string, sc.NParts)
 	for i := range k {
-		k[i] = partTags(i)
+		k[i] = sc.tags(i)
 	}
 	return k
 }
@@ -71,7 +84,7 @@ func observe(c *child, sc *Scenario) (Obs, error) {
 	for i := 0; i < sc.NParts; i++ {
 		var evs []int64
 		if a.Parts[i].Exists {
-			r, err := c.do(Cmd{Op: "range", Tags: partTags(i), Lo: sc.Range[0], Hi: sc.Range[1]})
+			r, err := c.do(Cmd{Op: "range", Tags: sc.tags(i), Lo: sc.Range[0], Hi: sc.Range[1]})
 			if err != nil {
 				return Obs{}, err
 			}
@@ -80,6 +93,17 @@ func observe(c *child, sc *Scenario) (Obs, error) {
 		o.Ranges = append(o.Ranges, evs)
 	}
 	return o, nil
+}
+
+// rangeComplete: every event of the full read that lies in the probe range is in the RANGE answer, in order
+func rangeComplete(sc *Scenario, events, answer []int64) bool {
+	var inr []int64
+	for _, t := range events {
+		if t >= sc.Range[0] && t <= sc.Range[1] {
+			inr = append(inr, t)
+		}
+	}
+	return isSubseq(inr, answer)
 }
 
 func tornPrefix(data []byte, perMille int) []byte {
@@ -192,7 +216,8 @@ func runScenario(sc *Scenario) (*trace, error) {
 	defer RemoveAll(dir)
 	tr := &trace{}
 	saved := map[string][]byte{}
-	start := func() (*child, error) {
+	gaveUp, rangeGaveUp := false, false
+	start := func(blind bool) (*child, error) {
 		c, started, msg, err := startChild(dir, 600000)
 		if err != nil {
 			return nil, err
@@ -200,6 +225,10 @@ func runScenario(sc *Scenario) (*trace, error) {
 		if !started {
 			tr.obs = append(tr.obs, Obs{Started: false, Err: msg})
 			return nil, nil
+		}
+		if blind {
+			tr.obs = append(tr.obs, Obs{Started: true, Blind: true})
+			return c, nil
 		}
 		o, err := observe(c, sc)
 		if err != nil {
@@ -210,7 +239,7 @@ func runScenario(sc *Scenario) (*trace, error) {
 		return c, nil
 	}
 	for si, ss := range sc.Sessions {
-		c, err := start()
+		c, err := start(ss.Blind)
 		if err != nil {
 			return nil, err
 		}
@@ -221,26 +250,73 @@ func runScenario(sc *Scenario) (*trace, error) {
 			var cmd Cmd
 			switch st.Op {
 			case "write":
-				cmd = Cmd{Op: "write", Tags: partTags(st.Part), Ts: st.Ts}
+				cmd = Cmd{Op: "write", Tags: sc.tags(st.Part), Ts: st.Ts}
 			case "sync":
 				cmd = Cmd{Op: "sync"}
 			case "pipe":
 				cmd = Cmd{Op: "pipe", Name: st.Name}
 			case "delpipe":
 				cmd = Cmd{Op: "delpipe", Name: st.Name}
+			case "drop":
+				cmd = Cmd{Op: "drop", Tags: sc.tags(st.Part)}
+			case "fwdpipe":
+				cmd = Cmd{Op: "pipe", Name: fwdPipe, Cond: "app=c07 AND p=0"}
+			case "round":
+				cmd = Cmd{Op: "round", Name: fwdPipe, Tags: sc.tags(0), Ts: st.Ts, Dest: sc.tags(sc.NParts - 1)}
+				if gaveUp {
+					cmd.N = 2000 // a pipe that did not catch up once is not waited for at length again
+				}
 			default:
 				c.kill()
 				return nil, fmt.Errorf("unknown step %q", st.Op)
 			}
-			if _, err := c.do(cmd); err != nil {
+			a, err := c.do(cmd)
+			if err != nil {
 				c.kill()
 				return nil, fmt.Errorf("session %d: %v", si, err)
+			}
+			if st.Op == "round" {
+				switch {
+				case a.Short:
+					gaveUp = true
+					tr.inject = append(tr.inject, "round:gave-up")
+				case a.Count > 5000:
+					tr.inject = append(tr.inject, "round:took-more-than-5s")
+				}
 			}
 		}
 		pre, err := observe(c, sc)
 		if err != nil {
 			c.kill()
 			return nil, err
+		}
+		// a time index that was found inconsistent by a write is rebuilt in the background: a RANGE answer that misses
+		// events of the full read is asked again until it is complete (generous deadline) - unless this start already
+		// showed the same partition short (a stale snapshot: the answer stays as it is)
+		startObs := tr.obs[len(tr.obs)-1]
+		for p := 0; p < sc.NParts; p++ {
+			if !pre.Parts[p].Exists || rangeComplete(sc, pre.Parts[p].Events, pre.Ranges[p]) {
+				continue
+			}
+			if !startObs.Blind && p < len(startObs.Parts) && startObs.Parts[p].Exists && !rangeComplete(sc, startObs.Parts[p].Events, startObs.Ranges[p]) {
+				continue
+			}
+			patience := 10 * time.Second
+			if rangeGaveUp {
+				patience = time.Second // an answer that stayed short once in this scenario is not waited for at length again
+			}
+			rangeGaveUp = !WaitFor(patience, func() bool {
+				r, err := c.do(Cmd{Op: "range", Tags: sc.tags(p), Lo: sc.Range[0], Hi: sc.Range[1]})
+				if err != nil {
+					return true
+				}
+				pre.Ranges[p] = r.Events
+				if rangeComplete(sc, pre.Parts[p].Events, r.Events) {
+					return true
+				}
+				time.Sleep(20 * time.Millisecond)
+				return false
+			})
 		}
 		tr.pre = append(tr.pre, pre)
 		// the snapshot a crash of THIS session would leave behind is the one written by the previous clean stop
@@ -275,7 +351,7 @@ func runScenario(sc *Scenario) (*trace, error) {
 			}
 		}
 	}
-	c, err := start()
+	c, err := start(false)
 	if err != nil {
 		return nil, err
 	}
